@@ -32,12 +32,12 @@ package mpb
 //@ func (*bState).triggerCompletion
 //@   props    C09 C04
 //@   requires s != nil && b != nil
-//@   modifies s.triggerComplete, spawned()
+//@   modifies s.triggerComplete, spawned("(*Bar).tryEarlyRefresh")
 //@   ensures  trig: s.triggerComplete
 //@   ensures  auto: s.autoRefresh ==> spawned("(*Bar).tryEarlyRefresh") == old(spawned("(*Bar).tryEarlyRefresh")) + 1
 //@                  && called("Bar.cancel") == old(called("Bar.cancel"))
 //@   ensures  manual: !s.autoRefresh ==> called("Bar.cancel") == old(called("Bar.cancel")) + 1
-//@                  && spawned() == old(spawned())
+//@                  && spawned("(*Bar).tryEarlyRefresh") == old(spawned("(*Bar).tryEarlyRefresh"))
 
 // Step rules of C09, transcribed from the property statement. `wraps`: `s.current += n` is
 // Go's silent wrap-around; the rules are stated with wrap64, nothing is assumed about overflow.
@@ -46,47 +46,47 @@ package mpb
 //@   props    C09 C11 C10
 //@   wraps
 //@   requires s != nil && b != nil
-//@   modifies s.current, s.triggerComplete, spawned()
+//@   modifies s.current, s.triggerComplete, spawned("(*Bar).tryEarlyRefresh")
 //@   ensures  capped: old(s.triggerComplete) && wrap64(old(s.current) + n) >= old(s.total)
 //@              ==> s.current == old(s.total) && s.triggerComplete
 //@   ensures  plain: !(old(s.triggerComplete) && wrap64(old(s.current) + n) >= old(s.total))
 //@              ==> s.current == wrap64(old(s.current) + n) && s.triggerComplete == old(s.triggerComplete)
-//@   ensures  S1: old(s.completed()) && n >= 0 ==> s.completed()
-//@   ensures  S2: old(s.aborted) ==> s.aborted && !s.completed()
+//@   ensures  S1@C11: old(s.completed()) && n >= 0 ==> s.completed()
+//@   ensures  S2@C11: old(s.aborted) ==> s.aborted && !s.completed()
 
 //@ func (*Bar).SetCurrent$1
 //@   props    C09 C11 C10
 //@   requires s != nil && b != nil
-//@   modifies s.current, s.triggerComplete, spawned()
+//@   modifies s.current, s.triggerComplete, spawned("(*Bar).tryEarlyRefresh")
 //@   ensures  capped: old(s.triggerComplete) && current >= old(s.total)
 //@              ==> s.current == old(s.total) && s.triggerComplete
 //@   ensures  plain: !(old(s.triggerComplete) && current >= old(s.total))
 //@              ==> s.current == current && s.triggerComplete == old(s.triggerComplete)
-//@   ensures  S1: old(s.completed()) && current >= old(s.current) ==> s.completed()
-//@   ensures  S2: old(s.aborted) ==> s.aborted && !s.completed()
+//@   ensures  S1@C11: old(s.completed()) && current >= old(s.current) ==> s.completed()
+//@   ensures  S2@C11: old(s.aborted) ==> s.aborted && !s.completed()
 
 //@ func (*Bar).SetTotal$1
 //@   props    C09 C11 C10
 //@   requires s != nil && b != nil
-//@   modifies s.total, s.current, s.triggerComplete, spawned()
+//@   modifies s.total, s.current, s.triggerComplete, spawned("(*Bar).tryEarlyRefresh")
 //@   ensures  ignored: old(s.triggerComplete) ==> s.total == old(s.total) && s.current == old(s.current) && s.triggerComplete
 //@   ensures  adopt: !old(s.triggerComplete) && total < 0 ==> s.total == old(s.current)
 //@   ensures  set: !old(s.triggerComplete) && total >= 0 ==> s.total == total
 //@   ensures  complete: !old(s.triggerComplete) && complete ==> s.current == s.total && s.triggerComplete
 //@   ensures  keep: !old(s.triggerComplete) && !complete ==> s.current == old(s.current) && !s.triggerComplete
-//@   ensures  S1: old(s.completed()) ==> s.completed()
-//@   ensures  S2: old(s.aborted) ==> s.aborted && !s.completed()
+//@   ensures  S1@C11: old(s.completed()) ==> s.completed()
+//@   ensures  S2@C11: old(s.aborted) ==> s.aborted && !s.completed()
 
 //@ func (*Bar).EnableTriggerComplete$1
 //@   props    C09 C11 C10
 //@   requires s != nil && b != nil
-//@   modifies s.current, s.triggerComplete, spawned()
+//@   modifies s.current, s.triggerComplete, spawned("(*Bar).tryEarlyRefresh")
 //@   ensures  ignored: old(s.triggerComplete) ==> s.current == old(s.current)
 //@   ensures  enabled: s.triggerComplete && s.total == old(s.total)
 //@   ensures  capped: !old(s.triggerComplete) && old(s.current) >= old(s.total) ==> s.current == s.total
 //@   ensures  plain: !old(s.triggerComplete) && old(s.current) < old(s.total) ==> s.current == old(s.current)
-//@   ensures  S1: old(s.completed()) ==> s.completed()
-//@   ensures  S2: old(s.aborted) ==> s.aborted && !s.completed()
+//@   ensures  S1@C11: old(s.completed()) ==> s.completed()
+//@   ensures  S2@C11: old(s.aborted) ==> s.aborted && !s.completed()
 
 //@ func (*Bar).SetRefill$1
 //@   props    C09 C11 C10
@@ -98,13 +98,13 @@ package mpb
 //@ func (*Bar).Abort$1
 //@   props    C09 C11 C10
 //@   requires s != nil && b != nil
-//@   modifies s.aborted, s.rmOnComplete, s.triggerComplete, spawned()
+//@   modifies s.aborted, s.rmOnComplete, s.triggerComplete, spawned("(*Bar).tryEarlyRefresh")
 //@   ensures  noop: old(s.aborted) || old(s.completed())
 //@              ==> s.aborted == old(s.aborted) && s.rmOnComplete == old(s.rmOnComplete) && s.triggerComplete == old(s.triggerComplete)
 //@   ensures  abort: !old(s.aborted) && !old(s.completed()) ==> s.aborted && s.rmOnComplete == drop
-//@   ensures  S1: old(s.completed()) ==> s.completed()
-//@   ensures  S2: old(s.aborted) ==> s.aborted && !s.completed()
-//@   ensures  exclusive: !(s.aborted && s.completed())
+//@   ensures  S1@C11: old(s.completed()) ==> s.completed()
+//@   ensures  S2@C11: old(s.aborted) ==> s.aborted && !s.completed()
+//@   ensures  exclusive@C11: !(s.aborted && s.completed())
 
 // getters: exactly one value is sent, it is the field (or the observation completed()), and
 // nothing is modified
@@ -132,3 +132,203 @@ package mpb
 //@   requires s != nil && !closed(result)
 //@   modifies sent(result)
 //@   ensures  sent(result) == old(sent(result)) + 1 && lastSent(result) == s.completed()
+
+// ---------------------------------------------------------------------------------------
+// proxy readers and writers (C19; the unchecked type assertions are C02)
+
+//@ typeinv proxyWriterTo props C19 C02 hasType(self.ReadCloser, "io.WriterTo") && self.bar != nil && self.ReadCloser != nil
+//@ typeinv ewmaProxyWriterTo props C19 C02 hasType(self.ReadCloser, "io.WriterTo") && self.bar != nil && self.ReadCloser != nil
+//@ typeinv proxyReaderFrom props C19 C02 hasType(self.WriteCloser, "io.ReaderFrom") && self.bar != nil && self.WriteCloser != nil
+//@ typeinv ewmaProxyReaderFrom props C19 C02 hasType(self.WriteCloser, "io.ReaderFrom") && self.bar != nil && self.WriteCloser != nil
+//@ typeinv nopWriteCloserReaderFrom props C19 C02 hasType(self.Writer, "io.ReaderFrom")
+//@ typeinv proxyReader props C19 C02 self.bar != nil && self.ReadCloser != nil
+//@ typeinv ewmaProxyReader props C19 C02 self.bar != nil && self.ReadCloser != nil
+//@ typeinv proxyWriter props C19 C02 self.bar != nil && self.WriteCloser != nil
+//@ typeinv ewmaProxyWriter props C19 C02 self.bar != nil && self.WriteCloser != nil
+
+//@ func (*Bar).IncrBy
+//@   props    C19 C09
+//@   requires b != nil
+//@   ensures  called("(*Bar).IncrInt64") == old(called("(*Bar).IncrInt64")) + 1
+//@   ensures  calledWith("(*Bar).IncrInt64", 0) == b && calledWith("(*Bar).IncrInt64", 1) == n
+
+//@ func (*Bar).Increment
+//@   props    C09
+//@   requires b != nil
+//@   ensures  called("(*Bar).IncrInt64") == old(called("(*Bar).IncrInt64")) + 1
+//@   ensures  calledWith("(*Bar).IncrInt64", 0) == b && calledWith("(*Bar).IncrInt64", 1) == 1
+
+//@ func (*Bar).EwmaIncrBy
+//@   props    C19 C09
+//@   requires b != nil
+//@   ensures  called("(*Bar).EwmaIncrInt64") == old(called("(*Bar).EwmaIncrInt64")) + 1
+//@   ensures  calledWith("(*Bar).EwmaIncrInt64", 0) == b && calledWith("(*Bar).EwmaIncrInt64", 1) == n
+//@            && calledWith("(*Bar).EwmaIncrInt64", 2) == iterDur
+
+//@ func (*Bar).EwmaIncrement
+//@   props    C09
+//@   requires b != nil
+//@   ensures  called("(*Bar).EwmaIncrInt64") == old(called("(*Bar).EwmaIncrInt64")) + 1
+//@   ensures  calledWith("(*Bar).EwmaIncrInt64", 1) == 1 && calledWith("(*Bar).EwmaIncrInt64", 2) == iterDur
+
+// transparency: exactly one underlying call with the caller's arguments, results returned
+// unchanged, exactly one increment by the byte count returned
+
+//@ func (proxyReader).Read
+//@   props    C19
+//@   ensures  once: called("io.ReadCloser.Read") == old(called("io.ReadCloser.Read")) + 1 && calledWith("io.ReadCloser.Read", 1) == p
+//@   ensures  same: result0 == returned("io.ReadCloser.Read", 0) && result1 == returned("io.ReadCloser.Read", 1)
+//@   ensures  counted: called("(*Bar).IncrBy") == old(called("(*Bar).IncrBy")) + 1 && calledWith("(*Bar).IncrBy", 0) == x.bar && calledWith("(*Bar).IncrBy", 1) == result0
+
+//@ func (proxyWriterTo).WriteTo
+//@   props    C19 C02
+//@   ensures  once: called("io.WriterTo.WriteTo") == old(called("io.WriterTo.WriteTo")) + 1 && calledWith("io.WriterTo.WriteTo", 0) == x.ReadCloser && calledWith("io.WriterTo.WriteTo", 1) == w
+//@   ensures  same: result0 == returned("io.WriterTo.WriteTo", 0) && result1 == returned("io.WriterTo.WriteTo", 1)
+//@   ensures  counted: called("(*Bar).IncrInt64") == old(called("(*Bar).IncrInt64")) + 1 && calledWith("(*Bar).IncrInt64", 0) == x.bar && calledWith("(*Bar).IncrInt64", 1) == result0
+
+//@ func (ewmaProxyReader).Read
+//@   props    C19
+//@   ensures  once: called("io.ReadCloser.Read") == old(called("io.ReadCloser.Read")) + 1 && calledWith("io.ReadCloser.Read", 1) == p
+//@   ensures  same: result0 == returned("io.ReadCloser.Read", 0) && result1 == returned("io.ReadCloser.Read", 1)
+//@   ensures  counted: called("(*Bar).EwmaIncrBy") == old(called("(*Bar).EwmaIncrBy")) + 1 && calledWith("(*Bar).EwmaIncrBy", 0) == x.bar && calledWith("(*Bar).EwmaIncrBy", 1) == result0
+//@   ensures  timed: calledWith("(*Bar).EwmaIncrBy", 2) == returned("time.Since", 0) && calledWith("time.Since", 0) == returned("time.Now", 0)
+//@            && called("time.Now") == old(called("time.Now")) + 1 && called("time.Since") == old(called("time.Since")) + 1
+
+//@ func (ewmaProxyWriterTo).WriteTo
+//@   props    C19 C02
+//@   ensures  once: called("io.WriterTo.WriteTo") == old(called("io.WriterTo.WriteTo")) + 1 && calledWith("io.WriterTo.WriteTo", 0) == x.ReadCloser && calledWith("io.WriterTo.WriteTo", 1) == w
+//@   ensures  same: result0 == returned("io.WriterTo.WriteTo", 0) && result1 == returned("io.WriterTo.WriteTo", 1)
+//@   ensures  counted: called("(*Bar).EwmaIncrInt64") == old(called("(*Bar).EwmaIncrInt64")) + 1 && calledWith("(*Bar).EwmaIncrInt64", 0) == x.bar && calledWith("(*Bar).EwmaIncrInt64", 1) == result0
+//@   ensures  timed: calledWith("(*Bar).EwmaIncrInt64", 2) == returned("time.Since", 0) && calledWith("time.Since", 0) == returned("time.Now", 0)
+
+//@ func (proxyWriter).Write
+//@   props    C19
+//@   ensures  once: called("io.WriteCloser.Write") == old(called("io.WriteCloser.Write")) + 1 && calledWith("io.WriteCloser.Write", 1) == p
+//@   ensures  same: result0 == returned("io.WriteCloser.Write", 0) && result1 == returned("io.WriteCloser.Write", 1)
+//@   ensures  counted: called("(*Bar).IncrBy") == old(called("(*Bar).IncrBy")) + 1 && calledWith("(*Bar).IncrBy", 0) == x.bar && calledWith("(*Bar).IncrBy", 1) == result0
+
+//@ func (proxyReaderFrom).ReadFrom
+//@   props    C19 C02
+//@   ensures  once: called("io.ReaderFrom.ReadFrom") == old(called("io.ReaderFrom.ReadFrom")) + 1 && calledWith("io.ReaderFrom.ReadFrom", 0) == x.WriteCloser && calledWith("io.ReaderFrom.ReadFrom", 1) == r
+//@   ensures  same: result0 == returned("io.ReaderFrom.ReadFrom", 0) && result1 == returned("io.ReaderFrom.ReadFrom", 1)
+//@   ensures  counted: called("(*Bar).IncrInt64") == old(called("(*Bar).IncrInt64")) + 1 && calledWith("(*Bar).IncrInt64", 0) == x.bar && calledWith("(*Bar).IncrInt64", 1) == result0
+
+//@ func (ewmaProxyWriter).Write
+//@   props    C19
+//@   ensures  once: called("io.WriteCloser.Write") == old(called("io.WriteCloser.Write")) + 1 && calledWith("io.WriteCloser.Write", 1) == p
+//@   ensures  same: result0 == returned("io.WriteCloser.Write", 0) && result1 == returned("io.WriteCloser.Write", 1)
+//@   ensures  counted: called("(*Bar).EwmaIncrBy") == old(called("(*Bar).EwmaIncrBy")) + 1 && calledWith("(*Bar).EwmaIncrBy", 0) == x.bar && calledWith("(*Bar).EwmaIncrBy", 1) == result0
+//@   ensures  timed: calledWith("(*Bar).EwmaIncrBy", 2) == returned("time.Since", 0) && calledWith("time.Since", 0) == returned("time.Now", 0)
+
+//@ func (ewmaProxyReaderFrom).ReadFrom
+//@   props    C19 C02
+//@   ensures  once: called("io.ReaderFrom.ReadFrom") == old(called("io.ReaderFrom.ReadFrom")) + 1 && calledWith("io.ReaderFrom.ReadFrom", 0) == x.WriteCloser && calledWith("io.ReaderFrom.ReadFrom", 1) == r
+//@   ensures  same: result0 == returned("io.ReaderFrom.ReadFrom", 0) && result1 == returned("io.ReaderFrom.ReadFrom", 1)
+//@   ensures  counted: called("(*Bar).EwmaIncrInt64") == old(called("(*Bar).EwmaIncrInt64")) + 1 && calledWith("(*Bar).EwmaIncrInt64", 0) == x.bar && calledWith("(*Bar).EwmaIncrInt64", 1) == result0
+//@   ensures  timed: calledWith("(*Bar).EwmaIncrInt64", 2) == returned("time.Since", 0) && calledWith("time.Since", 0) == returned("time.Now", 0)
+
+//@ func (nopWriteCloserReaderFrom).ReadFrom
+//@   props    C19 C02
+//@   ensures  once: called("io.ReaderFrom.ReadFrom") == old(called("io.ReaderFrom.ReadFrom")) + 1 && calledWith("io.ReaderFrom.ReadFrom", 0) == c.Writer && calledWith("io.ReaderFrom.ReadFrom", 1) == r
+//@   ensures  same: result0 == returned("io.ReaderFrom.ReadFrom", 0) && result1 == returned("io.ReaderFrom.ReadFrom", 1)
+
+// constructors: the wrapper offers the fast path exactly when the wrapped value does, the
+// ewma flavour is chosen iff asked for, Close is the wrapped value's (promoted method)
+
+//@ func toReadCloser
+//@   props    C19
+//@   requires r != nil
+//@   ensures  result != nil
+//@   ensures  hasType(r, "io.ReadCloser") ==> result == r
+//@   ensures  hasType(result, "io.WriterTo") == hasType(r, "io.WriterTo")
+
+//@ func newProxyReader
+//@   props    C19 C02
+//@   requires r != nil && b != nil
+//@   ensures  result != nil
+//@   ensures  fast: hasType(result, "io.WriterTo") == hasType(r, "io.WriterTo")
+//@   ensures  ewma: hasEwma == (hasType(result, "ewmaProxyReader") || hasType(result, "ewmaProxyWriterTo"))
+//@   ensures  plain: !hasEwma == (hasType(result, "proxyReader") || hasType(result, "proxyWriterTo"))
+
+//@ func toNopWriteCloser
+//@   props    C19 C02
+//@   requires w != nil
+//@   ensures  result != nil
+//@   ensures  hasType(result, "io.ReaderFrom") == hasType(w, "io.ReaderFrom")
+
+//@ func toWriteCloser
+//@   props    C19
+//@   requires w != nil
+//@   ensures  result != nil
+//@   ensures  hasType(w, "io.WriteCloser") ==> result == w
+//@   ensures  hasType(result, "io.ReaderFrom") == hasType(w, "io.ReaderFrom")
+
+//@ func newProxyWriter
+//@   props    C19 C02
+//@   requires w != nil && b != nil
+//@   ensures  result != nil
+//@   ensures  fast: hasType(result, "io.ReaderFrom") == hasType(w, "io.ReaderFrom")
+//@   ensures  ewma: hasEwma == (hasType(result, "ewmaProxyWriter") || hasType(result, "ewmaProxyReaderFrom"))
+//@   ensures  plain: !hasEwma == (hasType(result, "proxyWriter") || hasType(result, "proxyReaderFrom"))
+
+//@ func (*Bar).ProxyReader$1
+//@   props    C19
+//@   requires s != nil && r != nil && b != nil && !closed(result)
+//@   ensures  sent(result) == old(sent(result)) + 1 && lastSent(result) == returned("newProxyReader", 0)
+//@   ensures  calledWith("newProxyReader", 0) == r && calledWith("newProxyReader", 1) == b
+//@            && calledWith("newProxyReader", 2) == (len(s.ewmaDecorators) != 0)
+
+//@ func (*Bar).ProxyWriter$1
+//@   props    C19
+//@   requires s != nil && w != nil && b != nil && !closed(result)
+//@   ensures  sent(result) == old(sent(result)) + 1 && lastSent(result) == returned("newProxyWriter", 0)
+//@   ensures  calledWith("newProxyWriter", 0) == w && calledWith("newProxyWriter", 1) == b
+//@            && calledWith("newProxyWriter", 2) == (len(s.ewmaDecorators) != 0)
+
+// ewma flavours: every moving-average decorator receives the sample once, with its duration
+
+//@ func (*Bar).EwmaIncrInt64$1$1
+//@   props    C19 C09
+//@   requires d != nil
+//@   ensures  called("decor.EwmaDecorator.EwmaUpdate") == old(called("decor.EwmaDecorator.EwmaUpdate")) + 1
+//@   ensures  calledWith("decor.EwmaDecorator.EwmaUpdate", 0) == d && calledWith("decor.EwmaDecorator.EwmaUpdate", 1) == n
+//@            && calledWith("decor.EwmaDecorator.EwmaUpdate", 2) == iterDur
+
+//@ func (*Bar).EwmaIncrInt64$1
+//@   props    C19 C09 C11 C10
+//@   wraps
+//@   requires s != nil && b != nil
+//@   requires forall(i, 0, len(s.ewmaDecorators), s.ewmaDecorators[i] != nil)
+//@   modifies s.current, s.triggerComplete, spawned("(*Bar).tryEarlyRefresh"), spawned("(*Bar).EwmaIncrInt64$1$1")
+//@   loop 1   invariant spawned("(*Bar).EwmaIncrInt64$1$1") == old(spawned("(*Bar).EwmaIncrInt64$1$1")) + rangeindex + 1
+//@   loop 1   invariant s.current == old(s.current) && s.triggerComplete == old(s.triggerComplete) && s.total == old(s.total) && s.aborted == old(s.aborted)
+//@   ensures  all: spawned("(*Bar).EwmaIncrInt64$1$1") == old(spawned("(*Bar).EwmaIncrInt64$1$1")) + len(s.ewmaDecorators)
+//@   ensures  capped: old(s.triggerComplete) && wrap64(old(s.current) + n) >= old(s.total)
+//@              ==> s.current == old(s.total) && s.triggerComplete
+//@   ensures  plain: !(old(s.triggerComplete) && wrap64(old(s.current) + n) >= old(s.total))
+//@              ==> s.current == wrap64(old(s.current) + n) && s.triggerComplete == old(s.triggerComplete)
+//@   ensures  S1@C11: old(s.completed()) && n >= 0 ==> s.completed()
+//@   ensures  S2@C11: old(s.aborted) ==> s.aborted && !s.completed()
+
+//@ func (*Bar).EwmaSetCurrent$1$1
+//@   props    C19 C09
+//@   requires d != nil
+//@   ensures  called("decor.EwmaDecorator.EwmaUpdate") == old(called("decor.EwmaDecorator.EwmaUpdate")) + 1
+//@   ensures  calledWith("decor.EwmaDecorator.EwmaUpdate", 0) == d && calledWith("decor.EwmaDecorator.EwmaUpdate", 1) == n
+//@            && calledWith("decor.EwmaDecorator.EwmaUpdate", 2) == iterDur
+
+//@ func (*Bar).EwmaSetCurrent$1
+//@   props    C19 C09 C11 C10
+//@   wraps
+//@   requires s != nil && b != nil
+//@   requires forall(i, 0, len(s.ewmaDecorators), s.ewmaDecorators[i] != nil)
+//@   modifies s.current, s.triggerComplete, spawned("(*Bar).tryEarlyRefresh"), spawned("(*Bar).EwmaSetCurrent$1$1")
+//@   loop 1   invariant spawned("(*Bar).EwmaSetCurrent$1$1") == old(spawned("(*Bar).EwmaSetCurrent$1$1")) + rangeindex + 1
+//@   loop 1   invariant s.current == old(s.current) && s.triggerComplete == old(s.triggerComplete) && s.total == old(s.total) && s.aborted == old(s.aborted)
+//@   ensures  all: spawned("(*Bar).EwmaSetCurrent$1$1") == old(spawned("(*Bar).EwmaSetCurrent$1$1")) + len(s.ewmaDecorators)
+//@   ensures  capped: old(s.triggerComplete) && current >= old(s.total)
+//@              ==> s.current == old(s.total) && s.triggerComplete
+//@   ensures  plain: !(old(s.triggerComplete) && current >= old(s.total))
+//@              ==> s.current == current && s.triggerComplete == old(s.triggerComplete)
+//@   ensures  S1@C11: old(s.completed()) && current >= old(s.current) ==> s.completed()
+//@   ensures  S2@C11: old(s.aborted) ==> s.aborted && !s.completed()
